@@ -72,12 +72,15 @@ PROPS = {
                 "(quick) / <=4 (thorough) symbols x delimiters {'/','.',none,non-ASCII} with the empty reference and one symbol shorter x 6 "
                 "references; random to length 12 with names derived from the pattern so matches are frequent. Oracle: reference "
                 "resolution as fixed by TestMatchList + rune-wise DP matcher, cross-checked against an anchored regexp. Non-trivial: "
-                "pattern has a wildcard and the name contains the delimiter; distinct by hash of the 4-tuple.",
+                "pattern has a wildcard and the name contains the delimiter; distinct by hash of the 4-tuple. Additionally LIST "
+                "commands with generated reference/pattern are sent over a raw connection to a real imapserver + imapmemserver holding "
+                "generated mailboxes, and the returned name set must equal the reference matcher's selection.",
         "assumptions": ["names, references and patterns are valid UTF-8", "call time is recorded (exponential backtracking) but not judged"],
         "units": [
             plain("c20", "TestReplayRegressions"),
             plain("c20", "TestEnumSmallScope", shards_q=4, shards_t=16),
             rapid("c20", "TestPropRandom", quick=(60000, 3), thorough=(1000000, 12)),
+            rapid("c20", "TestPropListBackend", quick=(1500, 2), thorough=(30000, 4)),
         ],
     },
     "C19": {
@@ -88,7 +91,8 @@ PROPS = {
                 "that varies every field independently, judged by an independent RFC 9051 6.4.4 matcher. Part 2: SEARCH commands of 1..5 "
                 "top-level keys (all key kinds incl. NEW/OLD/ON/SENTON/NOT/OR/parenthesised lists) sent in EVERY permutation to a real "
                 "imapserver with a recording stub session; the recorded criteria must select exactly the intersection of per-key "
-                "predicates. Non-trivial: both operands constrain the universe and some field is set on one side only (part 1); >=2 keys "
+                "predicates. Part 3: the same permutation/intersection oracle end to end through the server parser and the in-memory "
+                "backend's matcher on a mailbox of 40 real messages with known attributes. Non-trivial: both operands constrain the universe and some field is set on one side only (part 1); >=2 keys "
                 "that exclude at least one message (part 2). Distinct by hash of the rendered criteria / key list.",
         "assumptions": ["ModSeq is outside the quantifier (CONDSTORE not implemented by the server)",
                         "both operands of And use one time.Location (the type documents only the calendar date as meaningful)",
@@ -98,6 +102,8 @@ PROPS = {
             plain("c19", "TestReplayPermutations"),
             rapid("c19", "TestPropAndLaw", quick=(12000, 4), thorough=(150000, 10)),
             rapid("c19", "TestPropSearchPermutations", quick=(1200, 4), thorough=(20000, 6)),
+            plain("c19", "TestReplayBackend"),
+            rapid("c19", "TestPropSearchBackend", quick=(1200, 3), thorough=(20000, 6)),
         ],
     },
     "C01": {
@@ -138,6 +144,24 @@ PROPS = {
         "units": [
             plain("c07", "TestReplayRegressions"),
             rapid("c07", "TestPropTracker", quick=(1500, 4), thorough=(30000, 12), steps=40),
+        ],
+    },
+    "C05": {
+        "level": "exploration",
+        "rule": "command histories of <=25 steps over a 40-shape alphabet (every command in UID and non-UID form, unknown commands, "
+                "STARTTLS with a real handshake, AUTHENTICATE with and without initial response, IDLE..DONE, APPEND with literal), each step "
+                "with a drawn backend outcome (OK / NO / BAD / plain Go error) for every session method it may reach, under drawn "
+                "configurations {implicit TLS, plaintext(+STARTTLS offered or not)} x InsecureAuth x greeting {OK, PREAUTH} x optional "
+                "session interfaces {Move, Namespace, Unauthenticate, SASL}; compared step by step with a reference RFC 9051 state "
+                "machine: exact sequence of backend methods reached, OK iff permitted and all backend calls succeeded, BYE/close on "
+                "LOGOUT and on unknown command before authentication, capability lists (AUTH= xor LOGINDISABLED, STARTTLS, IDLE) as a "
+                "fingerprint of the state. Non-trivial: history with >=1 command issued where it is forbidden and >=1 state change; "
+                "distinct by hash of (configuration, history).",
+        "assumptions": ["non-OK completions are only required to be NO or BAD (the statement does not fix which)",
+                        "CHECK is treated as NOOP by the server in every state and reaches no backend method"],
+        "units": [
+            plain("c05", "TestReplayScenarios"),
+            rapid("c05", "TestPropStateMachine", quick=(500, 6), thorough=(8000, 14), shrinktime="20s"),
         ],
     },
 }
